@@ -17,8 +17,10 @@ entity / column / join queries (2.0 style and legacy Query) with and without
 shard-restricting criteria, ``set_shard_id`` option, ``bind_arguments['shard_id']``,
 ``Query.set_shard``, ``identity_token`` execution option; ``get`` with and without
 ``identity_token``; lazy loads of ``Station.reports`` and ``Report.station``; attribute
-edits, inserts, deletes (flush + commit); ORM bulk UPDATE / DELETE with
-synchronize_session evaluate / fetch / auto.
+edits, inserts, deletes (flush + commit); one flush updating the same columns of several
+objects that live on different shards (equal primary keys included); pickle round trip of
+objects from all shards, ``expunge_all`` + ``add_all`` of the copies and two edit+flush
+rounds; ORM bulk UPDATE / DELETE with synchronize_session evaluate / fetch / auto.
 
 Oracle: raw ``sqlite3`` reads of each shard file.
 * after every commit, every shard file equals a model that places each object in the shard
@@ -33,6 +35,11 @@ Oracle: raw ``sqlite3`` reads of each shard file.
   children under the same parent pk);
 * after bulk UPDATE / DELETE, in-session objects of untouched shards that share a primary
   key with matched rows keep their state and membership.
+
+A flush of such edits that raises (StaleDataError, AssertionError ...) although the model
+rows exist on the objects' shards is a violation ("every flushed object is written to the
+shard ..."); unpickled objects must keep ``state.identity_token == key[2]`` and their
+identity keys across flushes.
 
 Guards: merged multi-shard results are concatenations, so order is never judged;
 aggregates / LIMIT across shards are not generated (per-shard semantics are documented);
@@ -55,7 +62,8 @@ META = {
     "require": ["programs", "commits_compared", "rows_placed_checked", "pk_collisions", "queries_compared",
                 "restricted_queries", "gets_compared", "lazy_loads_compared", "bulk_dml_compared",
                 "shard_chooser_calls", "execute_chooser_calls", "identity_chooser_calls",
-                "distinct_same_pk_entities"],
+                "distinct_same_pk_entities", "multi_shard_update_flushes",
+                "multi_shard_update_flushes_with_equal_pk", "pickle_cycles"],
     "assumptions": ["raw sqlite3 reads of a shard file show its committed rows"],
 }
 
@@ -321,7 +329,7 @@ def run_program(env, prog, k):
         op = rng.choice(["q_all", "q_region", "q_region_in", "q_level", "q_cols", "q_join", "q_shard_opt", "q_bind_arg",
                          "q_legacy", "q_legacy_set_shard", "q_identity_token", "get_token", "get_plain", "lazy_reports",
                          "lazy_station", "edit", "insert_report", "delete_report", "bulk_update", "bulk_delete",
-                         "insert_station"])
+                         "insert_station", "edit_many", "edit_many", "pickle_cycle"])
         regions_in_use = REGIONS[: desc["nregions"]]
         r1 = rng.choice(regions_in_use)
         r2 = rng.choice(regions_in_use)
@@ -525,6 +533,86 @@ def run_program(env, prog, k):
                         prog.model[tok]["report"].pop(rid, None)
                 if not compare_files("after-" + op.replace("_", "-")):
                     return
+                sess.expire_all()
+            elif op in ("edit_many", "pickle_cycle"):
+                # one flush that UPDATEs several same-class objects living on different shards
+                # (equal primary keys across shards included), same changed columns
+                import pickle
+
+                sess.expire_all()
+                which = rng.choice(["station", "station", "report"])
+                cls_, tab = (S, "station") if which == "station" else (Rp, "report")
+                allobjs = sess.execute(sa.select(cls_)).scalars().all()
+                if len(allobjs) < 2:
+                    continue
+                cols = rng.choice([("level",), ("level", "name")] if which == "station" else [("temp",), ("temp", "tag")])
+
+                def edit(objs_, bump):
+                    for o in objs_:
+                        tok = sa.inspect(o).key[2]
+                        pk = sa.inspect(o).key[1][0]
+                        row = list(prog.model[tok][tab][pk])
+                        if which == "station":
+                            o.level = (o.level or 0) + bump
+                            row[3] = o.level
+                            if "name" in cols:
+                                o.name = (o.name or "") + "m"
+                                row[2] = o.name
+                        else:
+                            o.temp = (o.temp or 0) + bump
+                            row[2] = o.temp
+                            if "tag" in cols:
+                                o.tag = (o.tag or "") + "m"
+                                row[3] = o.tag
+                        prog.model[tok][tab][pk] = tuple(row)
+
+                def flush(tag):
+                    try:
+                        sess.commit()
+                    except Exception as e:
+                        sess.rollback()
+                        vio("sharded-flush-raised-%s-%s" % (type(e).__name__, tag), "%s: %s" % (type(e).__name__, str(e)[:300]))
+                        return False
+                    return compare_files(tag)
+
+                if op == "edit_many":
+                    k_ = rng.randint(2, len(allobjs))
+                    chosen_objs = rng.sample(allobjs, k_)
+                    toks = {sa.inspect(o).identity_token for o in chosen_objs}
+                    pks = [sa.inspect(o).identity[0] for o in chosen_objs]
+                    if len(toks) > 1:
+                        ctx.count("multi_shard_update_flushes")
+                        if len(set(pks)) < len(pks):
+                            ctx.count("multi_shard_update_flushes_with_equal_pk")
+                    edit(chosen_objs, 1000)
+                    if not flush("after-edit-many"):
+                        return
+                else:
+                    keys = [sa.inspect(o).key for o in allobjs]
+                    copies = pickle.loads(pickle.dumps(allobjs, rng.choice([2, 3, 4, 5])))
+                    ctx.count("pickle_cycles")
+                    for c, key in zip(copies, keys):
+                        stc = sa.inspect(c)
+                        if stc.key != key:
+                            vio("unpickled-identity-key-differs", "key %s became %s" % (key, stc.key))
+                            return
+                        if stc.identity_token != key[2]:
+                            vio("unpickled-identity-token-differs-from-key", "key %s but state.identity_token=%r" % (key, stc.identity_token))
+                            return
+                    sess.expunge_all()
+                    sess.add_all(copies)
+                    for rnd in (1, 2):
+                        edit(copies, 7 * rnd)
+                        if not flush("after-unpickled-flush-%d" % rnd):
+                            return
+                        now = [sa.inspect(c).key for c in copies]
+                        if now != keys:
+                            bad = [(a, b) for a, b in zip(keys, now) if a != b][:2]
+                            vio("unpickled-object-rekeyed-by-flush", "flush %d changed identity keys: %s" % (rnd, bad))
+                            return
+                        if any(c not in sess for c in copies) or len({id(sess.identity_map.get(k2)) for k2 in keys}) != len(keys):
+                            vio("unpickled-objects-collapsed-in-session", "after flush %d not all %d objects are in the session" % (rnd, len(copies)))
+                            return
                 sess.expire_all()
             elif op in ("bulk_update", "bulk_delete"):
                 sync = rng.choice(["evaluate", "fetch", "auto"])
